@@ -46,6 +46,8 @@ type Run struct {
 	// Noise exercises the code under test with varied inputs; it runs in other
 	// goroutines while a case is replayed concurrently.
 	Noise func(i int)
+	// JobName names a shard job in reports (default "job N").
+	JobName func(job int) string
 	// Stuck turns an input whose evaluation never returned (see Watch) into
 	// the violation to report; its Case must be replayable.
 	Stuck func(input []byte) V
@@ -53,6 +55,8 @@ type Run struct {
 	// skipConfirm: the run is being ended by the watchdog (the code under test
 	// hangs); replaying further cases could hang as well
 	skipConfirm bool
+	// inexhaustive: part of the exploration was lost (a worker crashed)
+	inexhaustive bool
 
 	start    time.Time
 	cap      time.Duration
@@ -119,6 +123,9 @@ func Start(id, level string) *Run {
 			r.cap = 25 * time.Minute
 		}
 	}
+	if os.Getenv("VERIF_SUPERVISED") == "" && os.Getenv("VERIF_NO_SUPERVISOR") == "" {
+		r.supervise() // runs the check proper as a child process; does not return
+	}
 	return r
 }
 
@@ -171,6 +178,13 @@ func (r *Run) MaybeReplay() {
 	}
 	if err := json.Unmarshal(data, &f); err != nil {
 		Harness("parse replay: %v", err)
+	}
+	if strings.HasPrefix(f.Key, "check-process-crash") {
+		// recorded by the supervisor: the process running the check was brought
+		// down. There is no single case to replay; the whole check runs again.
+		fmt.Printf("replay of %s: the check process crashed; running the whole check again\n", r.replay)
+		r.replay = ""
+		return
 	}
 	vs := r.Replayer(f.Case)
 	fmt.Printf("replay of %s (%s)\nrecorded: %s\n", r.replay, f.Key, f.What)
@@ -380,6 +394,9 @@ func (r *Run) Finish() {
 	if r.Capped() {
 		cov["exhaustive"] = false
 		cov["cap_reached_s"] = r.cap.Seconds()
+	}
+	if r.inexhaustive {
+		cov["exhaustive"] = false
 	}
 	if r.dropped > 0 {
 		cov["further_violations_not_listed"] = r.dropped
